@@ -10,6 +10,7 @@ CONSTANTS
   Protos = {TRUE, FALSE}
   Faults <- DialFaults
   Spurious = FALSE
+  AllowDrop = FALSE
   Durs <- Durs013
   MaxT = 3
   RespFaults = FALSE
